@@ -1,6 +1,7 @@
 import Pl.Anc
 import Pl.CheckSound
 import Pl.PlanSound
+import Pl.Component
 
 /-! # C02 — property theorems (statements only; proofs live in the family libraries) -/
 
@@ -62,6 +63,22 @@ theorem checkPlan_sound :
       (strict = true → ∀ c ∈ retained, replays plan c = wantReplays (ancestors parents) parents.toArray c) ∧
       (∀ p ∈ sN.live, p.2.hib = false) :=
   @Pl.checkPlan_sound
+
+/-- the retained set the validator is given (what `leaveRootComponent` kept - which of several largest components is
+kept depends on map order, so it is observed, then judged by `retainedOK`): acceptance means it is exactly one connected
+component of the commit graph and no connected set of commits is larger -/
+theorem retainedOK_sound :
+    ∀ (parents : List (List Nat)) (hr : InRange parents) (ret : List Nat) (h : retainedOK parents ret = true),
+    (ret = [] ∧ parents = []) ∨
+    ∃ c, c < parents.length ∧ c ∈ ret ∧ StrictSorted ret ∧ (∀ x, x ∈ ret ↔ Conn parents c x) ∧
+      ∀ (d : Nat) (l : List Nat), d < parents.length → l.Nodup → (∀ x ∈ l, Conn parents d x) → l.length ≤ ret.length :=
+  @Pl.retainedOK_sound
+
+/-- `componentOf` (n rounds of neighbour expansion) is exactly the connected component -/
+theorem componentOf_spec :
+    ∀ (parents : List (List Nat)) (hr : InRange parents) (c : Nat) (hc : c < parents.length),
+    StrictSorted (componentOf parents c) ∧ ∀ x, x ∈ componentOf parents c ↔ Conn parents c x :=
+  @Pl.componentOf_spec
 end
 
 end Props.C02
